@@ -58,7 +58,10 @@ def check(run):
         run.guard("C06.via.C07.4.deserialize", cfg, lambda: _C07d.rule_deserialize(b74, F, cfg))
         from . import C02 as _C02rc
         brc = run.borrow("C02", only=r"regex-text-case|builders-", why="batch and incremental loading reach the same regexes: every builder of compile_regex is configured alike")
-        run.guard("C06.via.C02.3.regex-translation", cfg, lambda: (_C02rc.rule_regex_case(brc, F, cfg), _C02rc.rule_translation(brc, F, cfg)))
+        run.guard("C06.via.C02.3.regex-translation", cfg, lambda: (_C02rc.rule_regex_case(brc, F, cfg), _C02rc.rule_regex_builder(brc, F, cfg)))
+        from . import C13 as _C13u
+        b13 = run.borrow("C13", why="answers depend on the resources loaded NOW: use_resources replaces, it does not accumulate over the engine's history")
+        run.guard("C06.via.C13.5.lookup", cfg, lambda: _C13u.rule_use_resources(b13, F, cfg))
 
 
 def engine_types(F):
